@@ -138,6 +138,149 @@ theorem C10_lag1 {α β} (mk : α → α → β) (xs : List α) :
     simp only [runRaw, List.flatten_cons, Option.getD_none, k]
     simp
 
+/-- `_lag.on_next` as an explicit function on the deque -/
+def lagNext {α β} (n : Nat) (mk : α → α → β) (q : List α) (x : α) : List α × List (LOut β) :=
+  (if (q ++ [x]).length > n then (q ++ [x]).tail else q ++ [x], [LOut.item (mk ((q ++ [x]).headD x) x)])
+
+def lagFin {α β} (_ : List α) : List (LOut β) := []
+
+/-- the `_lag` deque once it holds `size` items: every pair is (item `size` steps back, item) -/
+theorem lag_full {α β} (n : Nat) (mk : α → α → β) : ∀ (xs q : List α), q.length = n →
+    (runRaw (lagNext n mk) lagFin q xs).1.flatten = (List.zipWith mk (q ++ xs) xs).map LOut.item := by
+  intro xs
+  induction xs with
+  | nil => intro q _; simp [runRaw]
+  | cons x xs ih =>
+    intro q hq
+    have hgt : (q ++ [x]).length > n := by simp [hq]
+    simp only [runRaw, lagNext, List.flatten_cons, hgt, if_true]
+    have := ih (q ++ [x]).tail (by simp [hq])
+    rw [this]
+    cases q with
+    | nil => simp
+    | cons a r => simp
+
+/-- the warm-up phase: the deque holds everything received so far, its head is the first item -/
+theorem lag_warm {α β} (n : Nat) (mk : α → α → β) : ∀ (xs : List α) (x0 : α) (r : List α), (x0 :: r).length ≤ n →
+    (runRaw (lagNext n mk) lagFin (x0 :: r) xs).1.flatten =
+      (List.zipWith mk (List.replicate (n - (x0 :: r).length) x0 ++ (x0 :: r) ++ xs) xs).map LOut.item := by
+  intro xs
+  induction xs with
+  | nil => intro x0 r _; simp [runRaw]
+  | cons x xs ih =>
+    intro x0 r hq
+    by_cases hfull : (x0 :: r).length = n
+    · rw [lag_full n mk (x :: xs) (x0 :: r) hfull, hfull]; simp
+    · have hlt : (x0 :: r).length < n := by omega
+      have hnot : ¬ ((x0 :: r) ++ [x]).length > n := by simp at hlt ⊢; omega
+      have hstep : lagNext n mk (x0 :: r) x = ((x0 :: r) ++ [x], [LOut.item (mk x0 x)]) := by
+        simp only [lagNext, hnot, if_false]; rfl
+      simp only [runRaw, List.flatten_cons, hstep]
+      have := ih x0 (r ++ [x]) (by simp at hlt ⊢; omega)
+      simp only [List.cons_append] at this ⊢
+      rw [this]
+      have hrep : n - (x0 :: r).length = (n - (x0 :: (r ++ [x])).length) + 1 := by simp at hlt ⊢; omega
+      rw [hrep, List.replicate_succ]
+      simp
+
+/-- **lag(n)** for every `n`: the stream shifted right by `n` and padded with its first item, paired
+with the stream itself — `(item n steps back, or the first item; item)` -/
+theorem C10_lag {α β} (n : Nat) (mk : α → α → β) (xs : List α) :
+    (lagOp n mk).outL xs =
+      match xs with
+      | [] => []
+      | x0 :: _ => (List.zipWith mk (List.replicate n x0 ++ xs) xs).map LOut.item := by
+  cases xs with
+  | nil => rfl
+  | cons x0 rest =>
+    show (runRaw (lagNext n mk) lagFin [] (x0 :: rest)).1.flatten ++
+      (runRaw (lagNext n mk) lagFin [] (x0 :: rest)).2 = _
+    rw [runRaw_snd]
+    simp only [lagFin, List.append_nil]
+    by_cases hn : n = 0
+    · subst hn
+      rw [lag_full 0 mk (x0 :: rest) [] rfl]; simp
+    · have hnot : ¬ (([] : List α) ++ [x0]).length > n := by simp; omega
+      have hstep : lagNext n mk [] x0 = ([x0], [LOut.item (mk x0 x0)]) := by
+        simp only [lagNext, hnot, if_false]; rfl
+      have hw := lag_warm n mk rest x0 [] (by simp; omega)
+      simp only [runRaw, List.flatten_cons, hstep, hw]
+      have hrep : n = (n - [x0].length) + 1 := by simp; omega
+      rw [hrep, List.replicate_succ]
+      simp
+
+/-! ### distinct_until_changed: one item per run of equal key values (the first of the run)
+
+The operator is the pipeline `scan | filter | map` of rxsci/operators/distinct_until_changed.py
+(`D.duc`, Derived.lean), over `Val` tuples `(flag, item, key)`, exactly as the code composes it. -/
+
+def dedupGo {α κ} [DecidableEq κ] (k : α → κ) : κ → List α → List α
+  | _, [] => []
+  | prev, y :: ys => if k y ≠ prev then y :: dedupGo k (k y) ys else dedupGo k (k y) ys
+
+/-- the first item of every maximal run of items with equal key -/
+def dedupAdj {α κ} [DecidableEq κ] (k : α → κ) : List α → List α
+  | [] => []
+  | x :: xs => x :: dedupGo k (k x) xs
+
+abbrev ducL (k : Val → Val) : LocalOp Val Val := (D.duc (fun v => .ok (k v))).loc
+
+abbrev DucSt := Option Val × Unit × Unit × Unit
+def ducNext (k : Val → Val) : DucSt → Val → DucSt × List (LOut Val) := (ducL k).next
+def ducFin (k : Val → Val) : DucSt → List (LOut Val) := (ducL k).fin
+
+/-- one item through `scan | filter | map`, from a state that has already seen an item -/
+theorem duc_step (k : Val → Val) (f : Bool) (x' x : Val) (u : (Unit × Unit × Unit)) :
+    ducNext k (some (Val.tup [.bool f, x', k x']), u) x =
+      ((some (Val.tup [.bool (decide (k x ≠ k x')), x, k x]), ((), (), ())),
+        if k x ≠ k x' then [LOut.item x] else []) := by
+  by_cases h : k x = k x'
+  · simp [ducNext, ducL, D.duc, Pipe.ofList, Pipe.loc, Stage.loc, D.scan, D.filter, D.map, compLocal, feedL, scanOp, scanNext,
+      filterOp, mapOp, idLocal, Val.nth, Val.elems, Val.tup, VList.ofList, VList.toList, Val.truthy, h, bind, Except.bind, pure, Except.pure]
+  · simp [ducNext, ducL, D.duc, Pipe.ofList, Pipe.loc, Stage.loc, D.scan, D.filter, D.map, compLocal, feedL, scanOp, scanNext,
+      filterOp, mapOp, idLocal, Val.nth, Val.elems, Val.tup, VList.ofList, VList.toList, Val.truthy, h, bind, Except.bind, pure, Except.pure]
+
+/-- the first item of a key -/
+theorem duc_first (k : Val → Val) (x : Val) (u : (Unit × Unit × Unit)) :
+    ducNext k (none, u) x = ((some (Val.tup [.bool true, x, k x]), ((), (), ())), [LOut.item x]) := by
+  simp [ducNext, ducL, D.duc, Pipe.ofList, Pipe.loc, Stage.loc, D.scan, D.filter, D.map, compLocal, feedL, scanOp, scanNext,
+    filterOp, mapOp, idLocal, Val.nth, Val.elems, Val.tup, VList.ofList, VList.toList, Val.truthy, bind, Except.bind, pure, Except.pure]
+
+theorem duc_fin (k : Val → Val) (s : DucSt) : ducFin k s = [] := by
+  simp [ducFin, ducL, D.duc, Pipe.ofList, Pipe.loc, Stage.loc, D.scan, D.filter, D.map, compLocal, feedL, scanOp, scanFin,
+    filterOp, mapOp, idLocal]
+
+/-- **distinct_until_changed** with any key function (`None`-valued keys included): the first item
+of every run of equal key values, nothing else, in order -/
+theorem C10_distinct_until_changed (k : Val → Val) (xs : List Val) :
+    (ducL k).outL xs = (dedupAdj k xs).map LOut.item := by
+  have key : ∀ (xs : List Val) (f : Bool) (x' : Val) (u : Unit × Unit × Unit),
+      (runRaw (ducNext k) (ducFin k) (some (Val.tup [.bool f, x', k x']), u) xs).1.flatten =
+        (dedupGo k (k x') xs).map LOut.item := by
+    intro xs
+    induction xs with
+    | nil => intro f x' u; simp [runRaw, dedupGo]
+    | cons x xs ih =>
+      intro f x' u
+      simp only [runRaw, List.flatten_cons, duc_step, dedupGo]
+      rw [ih]
+      by_cases h : k x = k x' <;> simp [h]
+  cases xs with
+  | nil =>
+    show (runRaw (ducNext k) (ducFin k) (none, ((), (), ())) []).1.flatten ++ (runRaw (ducNext k) (ducFin k) (none, ((), (), ())) []).2 = _
+    simp [runRaw, duc_fin, dedupAdj]
+  | cons x xs =>
+    show (runRaw (ducNext k) (ducFin k) (none, ((), (), ())) (x :: xs)).1.flatten ++
+      (runRaw (ducNext k) (ducFin k) (none, ((), (), ())) (x :: xs)).2 = _
+    rw [runRaw_snd, duc_fin]
+    simp only [runRaw, List.flatten_cons, duc_first, dedupAdj, List.append_nil]
+    rw [key]
+    simp
+
+example : dedupAdj (fun (n : Nat) => n / 2) [2, 3, 4, 5, 2, 2, 7] = [2, 4, 2, 7] := by decide
+example : (List.zipWith (fun a b => (a, b)) (List.replicate 2 10 ++ [10, 11, 12, 13]) [10, 11, 12, 13]) =
+    [(10, 10), (10, 11), (10, 12), (11, 13)] := by decide
+
 /-! ### pad_start / pad_end / start_with -/
 
 theorem C10_pad_start {α} (n : Nat) (v : Option α) (xs : List α) :
